@@ -29,8 +29,9 @@ type c18Tree struct {
 
 func c18GenTree(r *Rng) c18Tree {
 	// (two directories are named like modules: a path can contain a module's name before its last component)
-	dirs := []string{"", "lib", "lib/net", "app", "app/ui", "vendor/x", "util/skins", "core"}
-	names := []string{"util", "core", "socket", "view", "conf", "leaf"}
+	// (and directory / file names with a hyphen, which module strings may contain)
+	dirs := []string{"", "lib", "lib/net", "app", "app/ui", "vendor/x", "util/skins", "core", "third-party", "my-conf/v1"}
+	names := []string{"util", "core", "socket", "view", "conf", "leaf", "json-x"}
 	files := map[string]string{}
 	n := r.Range(3, 10)
 	for i := 0; i < n; i++ {
